@@ -53,6 +53,7 @@ def tuple_list_insensitive(d):
 
 
 LAYOUTS = ["oneline", "item-per-line", "paren", "expr-multiline"]
+WIDE_TOGGLE = [True]
 seen = set()
 for depth_t, (tgt, supported) in enumerate(targets(3 if THOROUGH else 2)):
     if tgt in seen:
@@ -72,8 +73,13 @@ for depth_t, (tgt, supported) in enumerate(targets(3 if THOROUGH else 2)):
                     stmt = f"{kind} (\n            " + ",\n            ".join(items) + ",\n        ):"
                 else:
                     stmt = f"{kind} cm(\n            0,\n        ) as {tgt}" + ("".join(f", cm({k}) as second" for k in range(1, nitems))) + ":"
-                src = ("async def fn(self, obj, d, i, f, g):\n    x = 1\n    " + stmt.replace("\n", "\n") + "\n        pass\n")
-                key = (tgt, layout, kind, nitems)
+                # "wide": 300 other global names are referenced first, so that the with line's FIRST instruction (the load of
+                # `cm`) needs an EXTENDED_ARG prefix - the line starts on an argument prefix, not on a "real" instruction
+                wide = layout == "oneline" and nitems == 1 and WIDE_TOGGLE[0]
+                WIDE_TOGGLE[0] = not WIDE_TOGGLE[0] if (layout == "oneline" and nitems == 1) else WIDE_TOGGLE[0]
+                prefix = ("    _w = [" + ", ".join(f"N{q}" for q in range(300)) + "]\n") if wide else ""
+                src = ("async def fn(self, obj, d, i, f, g):\n    x = 1\n" + prefix + "    " + stmt.replace("\n", "\n") + "\n        pass\n")
+                key = (tgt, layout + ("+wide-names" if wide else ""), kind, nitems)
                 try:
                     tree = ast.parse(src)
                     code = compile(src, "<c08>", "exec").co_consts[0]
